@@ -15,7 +15,7 @@ use std::rc::Rc;
 pub fn prop() -> Prop {
   Prop {
     id: "C19",
-    rule: "case = (1..4 tasks handed to the scheduler at t=0 or later: one-shot (OnceTask, NormalReturn), subscribing one-shot (OnceTask, SubscribeReturn of a probe subscription), repeating (RepeatTask with period 1..3 that declines after k runs), future-driven (FutureTask over a future that waits on the clock); delay none / 0 / 1 / 3 ticks (one case in eight at scale: time unit 0.7 s or 1 s + 1 ns instead of one tick, repeating tasks of 32..72 runs, zero periods); history of <= 10 steps: advance the clock, run the executor, run the i-th ready task, cancel handle i (unsubscribe), sample is_closed() of handle i, schedule the next task; executor FIFO-prompt, FIFO-late or any-ready-task-next). \
+    rule: "case = (1..4 tasks handed to the scheduler at t=0 or later: one-shot (OnceTask, NormalReturn), subscribing one-shot (OnceTask, SubscribeReturn of a probe subscription), repeating (RepeatTask with period 1..3 that declines after k runs; a third of them built with `with_first_delay` and a first delay different from the period), future-driven (FutureTask over a future that waits on the clock); delay none / 0 / 1 / 3 ticks (one case in eight at scale: time unit 0.7 s or 1 s + 1 ns instead of one tick, repeating tasks of 32..72 runs, zero periods); history of <= 10 steps: advance the clock, run the executor, run the i-th ready task, cancel handle i (unsubscribe), sample is_closed() of handle i, schedule the next task; executor FIFO-prompt, FIFO-late or any-ready-task-next). \
            Oracle: a one-shot body runs at most once and, once everything due has been run, exactly once unless cancelled before; never before (time it was scheduled + delay); a repeating task's sequence numbers are 0,1,2,... one period apart at least, and it stops for good when it declines or is cancelled; after unsubscribe() returned the body never starts; a subscribing task cancelled after it ran has its product unsubscribed exactly once, cancelled before it ran never creates one; once is_closed() returned true the body does not run later; the handle of a subscribing task that was never cancelled does not report closed while the subscription the task produced is open. Non-trivial: a cancel between scheduling and completion, or >= 2 tasks ready at once. Distinct by hash(case). \
            Part `threads` (engine T): a one-shot or subscribing task (delay none or 1 tick) is scheduled on a harness-driven multi-thread scheduler (VerifSpawner); a worker thread polls queued tasks / advances the clock while another thread calls unsubscribe() on the handle (or two threads on clones of a shared MutArc<Option<TaskHandle>> cell) and raises a flag when it has returned; the task body contains a yield point between an enter and a leave mark; schedule = <= 3 preemptions. Oracle: the body is not entered with the flag raised and is not inside (entered, not left) at the moment the flag is raised; the product of a subscribing task that ran is unsubscribed exactly once after a cancel.",
     assumptions: &["threads part: sequentially consistent interleavings at lock-acquisition granularity plus one yield inside the task body"],
@@ -37,6 +37,8 @@ enum TKind {
 struct TSpec {
   kind: TKind,
   delay: Option<u64>,
+  /// repeating tasks only: first run due after this long instead of one period (`RepeatTask::with_first_delay`)
+  first: Option<u64>,
 }
 #[derive(Clone, Debug, Hash, PartialEq, Eq)]
 enum Op {
@@ -106,6 +108,7 @@ fn gen_case(c: &mut dyn Choices) -> Case {
         _ => TKind::Future(c.pick(4) as u64),
       },
       delay: *c.one_of(&[None, Some(0u64), Some(1), Some(3)]),
+      first: None,
     })
     .collect();
   let mode = c.pick(3) as u8;
@@ -136,8 +139,10 @@ fn gen_case(c: &mut dyn Choices) -> Case {
   // (appended picks, recorded tapes keep their meaning) one case in eight at scale: time in units of 0.7 s or
   // 1 s + 1 ns instead of single ticks (delays of 0.7 / 2.1 / 3.000000003 s ...), repeating tasks that run 32..72 times,
   // repeating tasks with a zero period
+  let mut unit_used = 1u64;
   if c.pick(8) == 7 {
     let unit = *c.one_of(&[1u64, 700_000_000, 1_000_000_001]);
+    unit_used = unit;
     let more = c.flag();
     let zero = c.pick(3) == 0;
     for t in case.tasks.iter_mut() {
@@ -157,6 +162,16 @@ fn gen_case(c: &mut dyn Choices) -> Case {
       for _ in 0..2 {
         case.ops.push(Op::Advance(unit * (40 + c.pick(60) as u64)));
         case.ops.push(if case.mode == 2 { Op::RunReady(0) } else { Op::Run });
+      }
+    }
+  }
+  // (appended picks, after everything above) repeating tasks: a third of them get a first delay that differs from
+  // the period (`RepeatTask::with_first_delay`)
+  for t in case.tasks.iter_mut() {
+    if let TKind::Repeat(p, _) = t.kind {
+      if c.pick(3) == 0 {
+        let f = *c.one_of(&[0u64, 1, 2, 5, 7]) * unit_used;
+        t.first = Some(if f == p { p + 3 * unit_used } else { f });
       }
     }
   }
@@ -194,7 +209,10 @@ fn execute(case: &Case) -> Observed {
     let h: Box<dyn SubHandle> = match &spec.kind {
       TKind::Once => Box::new(VSched.schedule(OnceTask::new(once_body, (world.clone(), i)), d)),
       TKind::OnceSub => Box::new(VSched.schedule(OnceTask::new(once_sub_body, (world.clone(), i)), d)),
-      TKind::Repeat(p, k) => Box::new(VSched.schedule(RepeatTask::new(ticks(*p), repeat_body, (world.clone(), i, *k)), d)),
+      TKind::Repeat(p, k) => match spec.first {
+        None => Box::new(VSched.schedule(RepeatTask::new(ticks(*p), repeat_body, (world.clone(), i, *k)), d)),
+        Some(f) => Box::new(VSched.schedule(RepeatTask::with_first_delay(ticks(f), ticks(*p), repeat_body, (world.clone(), i, *k)), d)),
+      },
       TKind::Future(w) => Box::new(VSched.schedule(FutureTask::new(vtime::new_vtimer_lazy(ticks(*w)), future_body, (world.clone(), i)), d)),
     };
     handles[i] = Some(h);
@@ -278,7 +296,7 @@ fn judge(case: &Case, o: &Observed) -> Result<(), (String, String)> {
     // a repeating task's first period runs from its construction, in parallel with the scheduling delay;
     // a future-driven task starts its future when it is first polled, i.e. after the delay
     let earliest = match spec.kind {
-      TKind::Repeat(p, _) => t0 + delay.max(p),
+      TKind::Repeat(p, _) => t0 + delay.max(spec.first.unwrap_or(p)),
       TKind::Future(w) => t0 + delay + w,
       _ => t0 + delay,
     };
